@@ -245,6 +245,8 @@ def run(ch: Checker) -> None:
     # ---------------- C06.6 per-message header maps
     from .common import fresh_headers_check
     fresh_headers_check(ch, 'C06.6')
+    # ---------------- C06.7 / C06.8 (shared)
+    ch.import_rules('C03', {'C03.1': 'C06.7', 'C03.2': 'C06.8'}, 'a request whose terminator is split across reads is only recognised (and answered) if the parser carries the unconsumed bytes over')
 
 
 def _owner(prog: Any, mod: Any, node: ast.AST) -> Optional[FuncInfo]:
